@@ -272,6 +272,35 @@ def install(rec):
                 rec.check(entry, "single_factor", ok,
                           mech=f"{entry}:single_factor:{method}:{form}",
                           detail=detail, sig=sig)
+                # SVD-type methods return *the singular vectors* in order: where
+                # the spectrum is non-degenerate each returned vector equals the
+                # reference singular vector up to a phase (an untruncated unitary
+                # passes every projector identity above, so this is the clause
+                # that pins e.g. a missing conjugate)
+                if svdtype and form in ("lorthog", "rorthog") and k_eff > 0 and not gram_illcond(s0, k_eff, eps, gram):
+                    F = L if form == "lorthog" else R
+                    if F is not None and (F.shape[1] if form == "lorthog" else F.shape[0]) == k_eff:
+                        worst = 0.0
+                        nchk = 0
+                        # (the order in which a lone orthogonal factor lists
+                        # its vectors is not part of the contract)
+                        Fm = F if form == "lorthog" else F.conj().T          # columns = vectors
+                        Rm = U0 if form == "lorthog" else V0.conj().T
+                        ovm = np.abs(Rm.conj().T @ Fm)
+                        for j_ in range(Fm.shape[1]):
+                            i_ = int(np.argmax(ovm[:, j_]))
+                            lo_gap = (s0[i_ - 1] - s0[i_]) if i_ > 0 else np.inf
+                            hi_gap = (s0[i_] - s0[i_ + 1]) if i_ + 1 < len(s0) else s0[i_]
+                            g_ = min(lo_gap, hi_gap) / max(s0[0], 1e-300)
+                            if g_ < 1e-2:
+                                continue
+                            worst = max(worst, abs(1.0 - float(ovm[i_, j_])))
+                            nchk += 1
+                        if nchk:
+                            vt = (1e4 * tol if not gram else 1e-3) / 1e-2
+                            rec.check(entry, "singular_vectors", worst <= max(vt, 1e-9),
+                                      mech=f"{entry}:singular_vectors:{method}:{form}",
+                                      detail=dict(detail, defect=worst, checked=nchk), sig=sig)
 
         # ---- isometry of factors the form promises to be isometric
         cond_ok = True
@@ -558,6 +587,14 @@ def rand_matrix(rng, method=None):
     return np.ascontiguousarray(x.astype(dtype)), shape_kind, spec
 
 
+def gram_illcond(s0, k_eff, eps, gram):
+    """Gram-matrix methods lose eps*cond^2 in the vectors"""
+    if not gram or len(s0) == 0:
+        return False
+    cnd = s0[0] / max(s0[min(k_eff, len(s0)) - 1], 1e-300)
+    return 100 * eps * cnd ** 2 > 1e-5
+
+
 def rand_opts(rng, x):
     d = min(x.shape)
     kw = {}
@@ -630,6 +667,31 @@ def wl_truncation(rng, rec, tier):
                     renorm=gen.choice(rng, [None, True, 2]))
     return {"method": method, "absorb": absorb, "shape": x.shape, "dtype": str(x.dtype),
             "spectrum": spec}
+
+
+def wl_single_factor(rng, rec, tier):
+    """single-factor forms of the SVD/QR-type methods, with and without a cap
+    that truncates, on the short-cut paths (cutoff 0 / None)"""
+    from quimb.tensor import decomp
+    method = gen.choice(rng, ["svd", "svd:eig", "svd:eig", "eig", "qr", "lq", "qr:cholesky"])
+    absorb = gen.choice(rng, ["lorthog", "rorthog", "lfactor", "rfactor", "s", "lsqrt", "rsqrt"])
+    x, sk, spec = rand_matrix(rng, method)
+    d = min(x.shape)
+    kw = {}
+    r = rng.random()
+    if r < 0.45:
+        kw["cutoff"] = 0.0
+    elif r < 0.7:
+        kw["cutoff"] = None
+    else:
+        kw["cutoff"] = float(gen.choice(rng, [1e-12, 1e-3]))
+    if rng.random() < 0.55 and d > 1:
+        kw["max_bond"] = int(rng.integers(1, d))
+    if rng.random() < 0.3:
+        kw["info"] = {"error": None}
+    gen.attempt(decomp.array_split, x, method=method, absorb=absorb, **kw)
+    return {"method": method, "absorb": absorb, "shape": x.shape, "dtype": str(x.dtype),
+            "kw": {k: (v if not isinstance(v, dict) else "info") for k, v in kw.items()}}
 
 
 def wl_batch(rng, rec, tier):
@@ -724,6 +786,7 @@ def wl_tensor(rng, rec, tier):
 WORKLOADS = [
     ("table", 8, wl_table),
     ("truncation", 4, wl_truncation),
+    ("single_factor", 3, wl_single_factor),
     ("batch", 1, wl_batch),
     ("tensor", 4, wl_tensor),
 ]
